@@ -48,7 +48,8 @@ def dp_rule_strategy():
     operand = st.one_of(st.sampled_from([("c", "Me_1"), ("c", "Me_2")]), st.sampled_from([0, 1, 2.5, 3, -1]).map(lambda v: ("k", v)))
     atom = st.tuples(st.sampled_from(sorted(OPS)), st.sampled_from([("c", "Me_1"), ("c", "Me_2")]), operand).map(lambda t: ("cmp",) + t)
     expr = st.one_of(atom, atom, st.tuples(st.sampled_from(["and", "or"]), atom, atom).map(lambda t: (t[0], t[1], t[2])))
-    cond = st.one_of(st.none(), st.none(), st.sampled_from(["a", "b"]).map(lambda v: ("cmp", "=", ("c", "Id_2"), ("k", v))), st.sampled_from([1, 2]).map(lambda v: ("cmp", ">=", ("c", "Id_1"), ("k", v))))
+    cond = st.one_of(st.none(), st.none(), st.sampled_from(["a", "b"]).map(lambda v: ("cmp", "=", ("c", "Id_2"), ("k", v))), st.sampled_from([1, 2]).map(lambda v: ("cmp", ">=", ("c", "Id_1"), ("k", v))),
+                     st.sampled_from([1, 2.5]).map(lambda v: ("cmp", ">", ("c", "Me_2"), ("k", v))))   # may be null: the rule then evaluates to null (three-valued implication as coded by the engine)
     return st.tuples(cond, expr, st.one_of(st.none(), st.sampled_from(["E1", "bad value", "x"])), st.one_of(st.none(), st.sampled_from([1, 2, 5])))
 
 
@@ -358,7 +359,7 @@ def run(ctx):
     ctx.merge(core.pmap("checks.c07", "work", [(ctx.seed * 1009 + k, n) for k in range(16)], procs=16))
     ctx.assumptions = ["check_hierarchy / hierarchy are generated only where all six validation modes must agree (every mentioned code item present, non-null and non-zero in every group, every right-hand total non-zero; no rule reads an item another rule computes): "
                        "the mode-specific treatment of missing / null / zero items and the effect of rule ordering are NOT decided by this check",
-                       "when-conditions are generated over identifiers only (never null)"]
+                       "a when-condition that evaluates to null makes the rule evaluate to null (neither reported by invalid nor given an errorcode)"]
 
 
 def replay(ctx, path):
